@@ -201,7 +201,7 @@ class BatchWorld(World):
                    "after a submission that raised, the second batch uses a fresh BatchProxy (re-use of a BatchProxy whose submission "
                    "failed is not covered by the statement)",
                    "a one-way batch is judged at quiescence (all threads idle, 0.5 virtual seconds later)"]
-    QUICK_RUNS = 3000
+    QUICK_RUNS = 2400
     CHUNK = 100
     SHRINK_LISTS = ["calls", "second"]
 
@@ -257,7 +257,10 @@ class BatchWorld(World):
     def scenario(self, ctx):
         plan, sched = ctx.plan, ctx.sched
         config.SERIALIZER = plan["serializer"]
-        config.COMPRESSION = plan["compression"]
+        # the handshake reply carries the exposed-member SETS of the object: their iteration order depends on the string
+        # hash seed, and so would the compressed length (-> recv sizes in the run digest).  All clients therefore connect
+        # uncompressed, meet at a barrier, and only then is compression switched on for the calls themselves.
+        config.COMPRESSION = False
         config.MAX_RETRIES = 0
         SU.USE_MSG_WAITALL = bool(plan["waitall"])
         srv = Server(ctx, plan["servertype"], pool=(1, 8))
@@ -270,16 +273,39 @@ class BatchWorld(World):
             batches.append((copy.deepcopy(plan["second"]), plan["mode2"]))
         outA, outB, bg = [], [], {"done": 0, "errors": [], "stamps": []}
         marks = {}
+        gate = {"arrived": 0, "expected": 0, "errors": []}
+
+        def client(parts):
+            """parts = [(uri, body)]: connect everything, wait for the other clients, then run the bodies in order"""
+            proxies = []
+            try:
+                for u, _ in parts:
+                    p = CL.Proxy(u)
+                    p._pyroBind()
+                    proxies.append(p)
+            except Exception as x:  # noqa
+                gate["errors"].append(describe(x))
+            gate["arrived"] += 1
+            if gate["arrived"] == gate["expected"]:
+                config.COMPRESSION = bool(plan["compression"])
+            sched.block(lambda: gate["arrived"] >= gate["expected"], 600.0, "connect-barrier")
+            if len(proxies) == len(parts):
+                for p, (_, body) in zip(proxies, parts):
+                    body(p)
+            for p in proxies:
+                try:
+                    p._pyroRelease()
+                except Exception:  # noqa
+                    pass
 
         def describe(x):
             return {"cls": type(x).__name__, "args": list(getattr(x, "args", ())), "comm": isinstance(x, E.CommunicationError),
                     "text": str(x)[:200]}
 
         # ---- (a) the batch on A
-        def run_batches():
+        def run_batches(p):
             marks["a0"] = sched.stamp()
             try:
-                p = CL.Proxy(uriA)
                 b = api.BatchProxy(p)
                 for calls, mode in batches:
                     rec = {"results": [], "submit_exc": None, "iter_exc": None, "ret_none": None, "n": len(calls)}
@@ -311,15 +337,13 @@ class BatchWorld(World):
                         except Exception as x:  # noqa - the failure at its position
                             rec["iter_exc"] = describe(x)
                             break
-                p._pyroRelease()
             except Exception as x:  # noqa
                 outA.append({"thread_error": describe(x)})
             marks["a1"] = sched.stamp()
 
         # ---- (b) the same calls one by one on B
-        def run_sequential():
+        def run_sequential(p):
             try:
-                p = CL.Proxy(uriB)
                 for calls, mode in batches:
                     rec = {"results": [], "fail": None}
                     outB.append(rec)
@@ -329,13 +353,11 @@ class BatchWorld(World):
                         except Exception as x:  # noqa - the reference's first failure
                             rec["fail"] = dict(describe(x), pos=i, m=c["m"])
                             break
-                p._pyroRelease()
             except Exception as x:  # noqa
                 outB.append({"thread_error": describe(x)})
 
-        def run_background():
+        def run_background(p):
             try:
-                p = CL.Proxy(uriC)
                 for i in range(plan["bg"]):
                     if i % 3 == 2:
                         bb = api.BatchProxy(p)
@@ -346,22 +368,19 @@ class BatchWorld(World):
                         p.add(1)
                     bg["stamps"].append(sched.stamp())
                     bg["done"] += 1
-                p._pyroRelease()
             except Exception as x:  # noqa
                 bg["errors"].append(describe(x))
 
-        def both():
-            for f in ((run_batches, run_sequential) if plan["a_first"] else (run_sequential, run_batches)):
-                f()
-
+        pa, pb = (uriA, run_batches), (uriB, run_sequential)
         ths = []
         if plan["concurrent"]:
-            ths.append(threading.Thread(target=run_batches, name="client-batch"))
-            ths.append(threading.Thread(target=run_sequential, name="client-seq"))
+            ths.append(threading.Thread(target=client, args=([pa],), name="client-batch"))
+            ths.append(threading.Thread(target=client, args=([pb],), name="client-seq"))
         else:
-            ths.append(threading.Thread(target=both, name="client"))
+            ths.append(threading.Thread(target=client, args=([pa, pb] if plan["a_first"] else [pb, pa],), name="client"))
         if plan["bg"]:
-            ths.append(threading.Thread(target=run_background, name="client-bg"))
+            ths.append(threading.Thread(target=client, args=([(uriC, run_background)],), name="client-bg"))
+        gate["expected"] = len(ths)
         for t in ths:
             t.start()
         for t in ths:
@@ -381,7 +400,13 @@ class BatchWorld(World):
         if not srv.loop_alive():
             ctx.disturbed = "daemon loop died: %r" % (srv.loop_death(),)
             return
+        if gate["errors"]:
+            if all(e["comm"] for e in gate["errors"]):
+                ctx.disturbed = "a client could not connect: %s" % gate["errors"][0]["text"]
+                return
+            raise S.HarnessError("client could not connect: %r" % (gate["errors"],))
         stateA, stateB = objA._snapshot(), objB._snapshot()
+        config.COMPRESSION = False      # the reader's handshakes again carry hash-ordered sets
 
         # ---- fresh normal calls read both states back
         remote = {}
